@@ -1349,7 +1349,8 @@ class Agg:
         self.time = 0.0
         self.naux = {}
         self.val = {'validated': 0, 'covered': 0, 'ctx_gap': 0, 'not_wf': 0, 'outside': {}, 'unproved_conversions': {},
-                    'other_status': {}, 'gap_examples': [], 'covered_but_failed': 0, 'gap_and_failed': 0}
+                    'other_status': {}, 'gap_examples': [], 'covered_but_failed': 0, 'gap_and_failed': 0,
+                    'with_objective': 0, 'obj_covered': 0, 'obj_gap': 0, 'obj_gap_examples': []}
 
     def add(self, out, ck, corpus=False):
         self.n += 1
@@ -1377,6 +1378,14 @@ class Agg:
                     if st == 'fail':
                         V['gap_and_failed'] += 1
                 covered = v.get('wf') and not v.get('gaps') and not v.get('outside') and not v.get('unproved_conversions')
+                if v.get('objgaps') is not None:          # hypothesis ObjCovers of C01_compose_objective
+                    V['with_objective'] += 1
+                    if v['objgaps']:
+                        V['obj_gap'] += 1
+                        if len(V['obj_gap_examples']) < 6:
+                            V['obj_gap_examples'].append({'case': out.get('id'), 'objgaps': v['objgaps'][:6], 'oracle_status': st})
+                    elif covered:
+                        V['obj_covered'] += 1
                 if covered:
                     V['covered'] += 1
                     if st == 'fail':
@@ -1487,13 +1496,16 @@ class Agg:
         ck.log('  failure signatures: %s' % dict(sorted(self.sigs.items())))
         V = self.val
         ck.log('  C01_compose hypotheses on recorded (pre-conversion) contexts, decided by the Lean validator: %d models validated; '
-               '%d fully inside the theorem (WF, CtxCovers, linear roots, every conversion has a proved gadget); %d with a context gap '
+               '%d fully inside the theorem (WF, CtxCovers incl. quadratic roots, linear/quadratic/logical roots, every conversion has a proved gadget); %d with a context gap '
                '(%d of them also fail the oracle); %d not in creation order; outside: %s; unproved conversions used: %s; '
                'inside the theorem but failing the oracle (late contexts / map reuse): %d; validator not applicable: %s'
                % (V['validated'], V['covered'], V['ctx_gap'], V['gap_and_failed'], V['not_wf'], dict(sorted(V['outside'].items())),
                   dict(sorted(V['unproved_conversions'].items())), V['covered_but_failed'], V['other_status']))
         for ex in V['gap_examples'][:3]:
             ck.log('    context gap example: %s' % ex)
+        ck.log('  C01_compose_objective: %d validated models have an objective; ObjCovers decided by the Lean validator (objGaps): '
+               '%d fully inside the objective theorem, %d with an objective context gap %s'
+               % (V['with_objective'], V['obj_covered'], V['obj_gap'], V['obj_gap_examples'][:2]))
         # stage A (gadgets) may already have filled these four; add the end-to-end counters
         ck.cov['evaluations'] = int(ck.cov.get('evaluations') or 0) + self.points
         ck.cov['distinct_nontrivial'] = int(ck.cov.get('distinct_nontrivial') or 0) + self.models_mixed
